@@ -40,6 +40,9 @@ type Case struct {
 	Other []int `json:"other,omitempty"`
 	// Plain: searches are started the way the UCI driver starts them, without a Counters option
 	Plain bool `json:"plain,omitempty"`
+	// Used: before the game the second engine (A') searches these positions and is then Clear()-ed, as after
+	// ucinewgame; a cleared engine must behave like a fresh one
+	Used []string `json:"used,omitempty"`
 }
 
 func opts(st Step) []search.Option {
@@ -102,6 +105,17 @@ func checkCase(c Case, rec *evid.Rec) (err error) {
 	bA2, _, _ := mkBoard(c)
 	bB, _, _ := mkBoard(c)
 	sA, sA2 := search.New(c.TT), search.New(c.TT)
+	for _, fen := range c.Used {
+		if ub, err := board.FromFEN(fen); err == nil {
+			srch.Run(sA2, ub, true, search.WithDepth(6), search.WithNodes(12000))
+		}
+	}
+	if len(c.Used) > 0 {
+		sA2.Clear()
+		if rec != nil {
+			rec.Class("twin_engine_used_then_cleared")
+		}
+	}
 	var sX *search.Search
 	if len(c.Other) > 0 && c.Other[0] > 0 {
 		sX = search.New(c.Other[0])
@@ -254,6 +268,15 @@ func TestC08(t *testing.T) {
 				c.Steps = append(c.Steps, st)
 			}
 			c.Plain = gen.Chance(t, 1, 3, "plain")
+			if gen.Chance(t, 1, 3, "used") {
+				for k := gen.Draw(t, 1, 3, "usedN"); k > 0; k-- {
+					u, _ := gen.Root(t)
+					u = gen.Playout(t, u, 8, nil)
+					if u.Half <= 100 {
+						c.Used = append(c.Used, u.FEN())
+					}
+				}
+			}
 			if gen.Chance(t, 1, 2, "other") {
 				sz := []int{0, 0, 32, 3200, 32 * 1024, 1 << 20, 4 << 20}
 				for i := 0; i <= len(c.Steps); i++ {
